@@ -76,6 +76,12 @@ fn agree(writer: &str, model: &str, imp: &str, case: &Case) -> Option<String> {
             let key = format!("F{}/{}=", hex(d.as_bytes()), hex(n.as_bytes()));
             m.retain(|t| !t.starts_with(&key));
             i.retain(|t| !t.starts_with(&key));
+            if d.is_empty() {
+                // a file directly below the root is also a row of the global index
+                let key = format!("R{}=", hex(n.as_bytes()));
+                m.retain(|t| !t.starts_with(&key));
+                i.retain(|t| !t.starts_with(&key));
+            }
         }
     }
     let fixed = match writer {
